@@ -92,21 +92,30 @@ type c13Stream struct{}
 func (c13Stream) Name() string               { return "c13" }
 func (c13Stream) CaseTimeout() time.Duration { return 60 * time.Second }
 func (c13Stream) Rule() string {
-	return "K sessions in parallel (1..8) through a recording TCP forwarder: a conforming client sends StartTLS, the handler waits D1 ms before its reply and D2 ms between the reply and Request.StartTLS (0..40 ms each), the client starts its handshake the moment the reply arrives (so its ClientHello is in the socket while the handler is still running), then issues N requests inside the tunnel, sequentially or pipelined; oracle: the handshake succeeds, every request in the tunnel is answered correctly and numbered after the StartTLS request, and every byte the server sent after the StartTLS reply parses as TLS records; trace replayed through the connection automaton; non-trivial = D1 + D2 > 0 or pipelined requests, distinct by scenario"
+	return "K sessions in parallel (1..8) through a recording TCP forwarder: a conforming client first issues 0..3 plain requests, then sends StartTLS, the handler waits D1 ms before its reply and D2 ms between the reply and Request.StartTLS (0..40 ms each, occasionally 1.3 s), the client starts its handshake the moment the reply arrives (so its ClientHello is in the socket while the handler is still running), then issues N requests inside the tunnel, sequentially or pipelined, occasionally after 6 s of silence; oracle: the handshake succeeds, every request in the tunnel is answered correctly and numbered after the StartTLS request, and every byte the server sent after the StartTLS reply parses as TLS records; trace replayed through the connection automaton; non-trivial = D1 + D2 > 0 or pipelined requests, distinct by scenario"
 }
 
 func (c13Stream) Generate(rng *rand.Rand, n int, thorough bool) []Case {
 	var cs []Case
 	for len(cs) < n {
-		cs = append(cs, Case{Line: fmt.Sprintf("c13 sessions=%d before=%d after=%d post=%d pipelined=%d", []int{1, 2, 4, 8}[rng.Intn(4)],
-			[]int{0, 1, 10, 40}[rng.Intn(4)], []int{0, 1, 10, 40}[rng.Intn(4)], 1+rng.Intn(6), rng.Intn(2)), Kind: "starttls"})
+		before, after, idle := []int{0, 1, 10, 40}[rng.Intn(4)], []int{0, 1, 10, 40}[rng.Intn(4)], 0
+		switch rng.Intn(12) {
+		case 0:
+			before = 1300 // a handler that takes its time before answering
+		case 1:
+			after = 1300 // ... or between its answer and the handshake
+		case 2:
+			idle = 6000 // a session that stays quiet for a while after the upgrade
+		}
+		cs = append(cs, Case{Line: fmt.Sprintf("c13 sessions=%d pre=%d before=%d after=%d post=%d pipelined=%d idle=%d", []int{1, 2, 4, 8}[rng.Intn(4)],
+			[]int{0, 0, 1, 3}[rng.Intn(4)], before, after, 1+rng.Intn(6), rng.Intn(2), idle), Kind: "starttls"})
 	}
 	return cs
 }
 
 func (c13Stream) Impl(c Case) string {
 	p := kv(c.Line)
-	k, post := atoi(p["sessions"]), atoi(p["post"])
+	k, post, pre, idle := atoi(p["sessions"]), atoi(p["post"]), atoi(p["pre"]), atoi(p["idle"])
 	tlsConfigs()
 	rc := &recorder{}
 	h := func(w *gldap.ResponseWriter, r *gldap.Request) {
@@ -145,6 +154,15 @@ func (c13Stream) Impl(c Case) string {
 			}
 			defer raw.Close()
 			cl := &rawClient{c: raw}
+			// plain requests before the upgrade: answered in the clear
+			for j := 0; j < pre; j++ {
+				_ = cl.send(opFrame(opKinds[(s+j)%len(opKinds)], int64(50+j)))
+				rf, err := cl.readFrame(10 * time.Second)
+				if err != nil || !strings.HasPrefix(strictView(rf), fmt.Sprintf("result id=%d ", 50+j)) {
+					fail("plain request %d before StartTLS not answered correctly: %v", j, err)
+					return
+				}
+			}
 			_ = cl.send(opFrame("starttls", 1))
 			f, err := cl.readFrame(10 * time.Second)
 			if err != nil {
@@ -180,6 +198,9 @@ func (c13Stream) Impl(c Case) string {
 				if p["pipelined"] == "1" {
 					all = append(all, fr...)
 				} else {
+					if j == 1 && idle > 0 {
+						time.Sleep(time.Duration(idle) * time.Millisecond)
+					}
 					_ = tcl.send(fr)
 					rf, err := tcl.readFrame(10 * time.Second)
 					if err != nil || !strings.HasPrefix(strictView(rf), fmt.Sprintf("result id=%d ", 100+j)) {
@@ -189,6 +210,9 @@ func (c13Stream) Impl(c Case) string {
 				}
 			}
 			if p["pipelined"] == "1" {
+				if idle > 0 {
+					time.Sleep(time.Duration(idle) * time.Millisecond)
+				}
 				_ = tcl.send(all)
 				seen := map[int64]bool{}
 				for j := 0; j < post; j++ {
@@ -220,12 +244,16 @@ func (c13Stream) Impl(c Case) string {
 		rc.mu.Unlock()
 		for cid, es := range byConn {
 			for _, e := range es {
-				if want := int(e.msgID-100) + 2; e.reqID != want {
-					fail("conn %d: tunnel request with message id %d has Request.ID %d, want %d", cid, e.msgID, e.reqID, want)
+				want := int(e.msgID-100) + 2 + pre
+				if e.msgID < 100 {
+					want = int(e.msgID-50) + 1
+				}
+				if e.reqID != want {
+					fail("conn %d: request with message id %d has Request.ID %d, want %d", cid, e.msgID, e.reqID, want)
 				}
 			}
-			if len(es) != post {
-				fail("conn %d: %d handlers for %d tunnel requests", cid, len(es), post)
+			if len(es) != post+pre {
+				fail("conn %d: %d handlers for %d plain and %d tunnel requests", cid, len(es), pre, post)
 			}
 		}
 		if len(byConn) != k {
@@ -235,10 +263,19 @@ func (c13Stream) Impl(c Case) string {
 	if verdict == "ok" {
 		tap.mu.Lock()
 		for id, b := range tap.s2c {
-			// skip the plaintext StartTLS reply (one LDAPMessage)
-			n, ok := frameLen(b)
-			if !ok || n > len(b) {
-				fail("session %d: server stream does not start with the StartTLS reply", id)
+			// skip the plaintext replies: the pre requests' and the StartTLS reply (one LDAPMessage each)
+			n := 0
+			bad := false
+			for j := 0; j <= pre; j++ {
+				m, ok := frameLen(b[n:])
+				if !ok || n+m > len(b) {
+					fail("session %d: server stream does not start with %d plaintext replies", id, pre+1)
+					bad = true
+					break
+				}
+				n += m
+			}
+			if bad {
 				continue
 			}
 			if ok, where := tlsRecordsOnly(b[n:]); !ok {
